@@ -276,6 +276,7 @@ class _RequestReceiver(Generic[_T_Request]):
     async def next(self, timeout: float | None) -> AsyncGenAction[_T_Request]:
         try:
             consumer = self.consumer
+            recv_error: Exception | None = None
             with self.__null_timeout_ctx if timeout is None else self.__backend.timeout(timeout):
                 data: bytes | None = None
                 while True:
@@ -297,15 +298,21 @@ class _RequestReceiver(Generic[_T_Request]):
                     try:
                         data = await self.transport.recv(self.max_recv_size)
                     except Exception as exc:
-                        if self.disconnect_error_filter is not None and self.disconnect_error_filter(exc):
-                            break
-                        # A broken transport may raise this error again on every call without ever suspending:
-                        # always let the other tasks run (and a cancellation be delivered) before the error is thrown
-                        # into the request handler.
-                        await self.__backend.coro_yield()
-                        raise
+                        if self.disconnect_error_filter is None or not self.disconnect_error_filter(exc):
+                            recv_error = exc
+                        break
                     if not data:
                         break
+            if recv_error is not None:
+                try:
+                    # A broken transport may raise this error again on every call without ever suspending:
+                    # always let the other tasks run (and a cancellation be delivered) before the error is thrown
+                    # into the request handler.
+                    # NOTE: Outside the timeout scope. Its cancellation must not replace the error.
+                    await self.__backend.coro_yield()
+                    raise recv_error
+                finally:
+                    del recv_error
         except BaseException as exc:
             return ThrowAction(exc)
         else:
@@ -326,6 +333,7 @@ class _BufferedRequestReceiver(Generic[_T_Request]):
     async def next(self, timeout: float | None) -> AsyncGenAction[_T_Request]:
         try:
             consumer = self.consumer
+            recv_error: Exception | None = None
             with self.__null_timeout_ctx if timeout is None else self.__backend.timeout(timeout):
                 nbytes: int | None = None
                 while True:
@@ -345,15 +353,21 @@ class _BufferedRequestReceiver(Generic[_T_Request]):
                     try:
                         nbytes = await self.transport.recv_into(consumer.get_write_buffer())
                     except Exception as exc:
-                        if self.disconnect_error_filter is not None and self.disconnect_error_filter(exc):
-                            break
-                        # A broken transport may raise this error again on every call without ever suspending:
-                        # always let the other tasks run (and a cancellation be delivered) before the error is thrown
-                        # into the request handler.
-                        await self.__backend.coro_yield()
-                        raise
+                        if self.disconnect_error_filter is None or not self.disconnect_error_filter(exc):
+                            recv_error = exc
+                        break
                     if not nbytes:
                         break
+            if recv_error is not None:
+                try:
+                    # A broken transport may raise this error again on every call without ever suspending:
+                    # always let the other tasks run (and a cancellation be delivered) before the error is thrown
+                    # into the request handler.
+                    # NOTE: Outside the timeout scope. Its cancellation must not replace the error.
+                    await self.__backend.coro_yield()
+                    raise recv_error
+                finally:
+                    del recv_error
         except BaseException as exc:
             return ThrowAction(exc)
         else:
